@@ -164,13 +164,13 @@ def callTable (cfg : CallCfg) (m : Method) (thr : List Rat) (hasBaf : Bool) (row
   rows.map (callRow cfg m thr first hasBaf)
 
 /-- `rescale_baf(purity, observed_baf)` with the normal-sample BAF 0.5 -/
-def rescaleBaf (p b : Rat) : Rat := (b - (1/2) * (1 - p)) / p
+def callRescaleBaf (p b : Rat) : Rat := (b - (1/2) * (1 - p)) / p
 
 /-- the BAF column `do_call` works with: values taken from the `variants` argument are rescaled for purity
     when the purity path runs; a `baf` column already present in the table is used as it is -/
 def bafForCall (cfg : CallCfg) (fromVariants : Bool) (row : SegRow) : SegRow :=
   match purityActive cfg.purity with
-  | some p => if fromVariants then { row with baf := row.baf.map (rescaleBaf p) } else row
+  | some p => if fromVariants then { row with baf := row.baf.map (callRescaleBaf p) } else row
   | none => row
 
 /-- `do_call` with b-allele frequencies (from the table, or from `variants`) -/
